@@ -371,6 +371,18 @@ func (s *Store) Ite(c, a, b *Term) *Term {
 			}
 			return s.Not(c)
 		}
+		if a.IsConst() {
+			if a.BoolVal() {
+				return s.Or(c, b)
+			}
+			return s.And(s.Not(c), b)
+		}
+		if b.IsConst() {
+			if b.BoolVal() {
+				return s.Or(s.Not(c), a)
+			}
+			return s.And(c, a)
+		}
 	}
 	return s.mk(&Term{Op: OIte, Sort: a.Sort, Args: []*Term{c, a, b}})
 }
@@ -408,6 +420,18 @@ func (s *Store) Eq(a, b *Term) *Term {
 			}
 			return s.Not(a)
 		}
+	}
+	// ite(c,t,e) = e  <=>  not c or t = e ;  ite(c,t,e) = t  <=>  c or e = t
+	for k := 0; k < 2; k++ {
+		if a.Op == OIte {
+			if a.Args[2] == b {
+				return s.Or(s.Not(a.Args[0]), s.Eq(a.Args[1], b))
+			}
+			if a.Args[1] == b {
+				return s.Or(a.Args[0], s.Eq(a.Args[2], b))
+			}
+		}
+		a, b = b, a
 	}
 	if a.ID > b.ID {
 		a, b = b, a
